@@ -3,7 +3,6 @@ package variable
 import (
 	"fmt"
 
-	"net/netip"
 
 	"github.com/pkg/errors"
 	"github.com/ysugimoto/falco/v2/interpreter/context"
@@ -28,7 +27,7 @@ func (v *HashScopeVariables) Get(s context.Scope, name string) (value.Value, err
 	case REQ_HASH:
 		return v.ctx.RequestHash, nil
 	case REQ_IS_IPV6:
-		parsed, err := netip.ParseAddr(v.ctx.Request.RemoteAddr)
+		parsed, err := parseRemoteAddr(v.ctx.Request.RemoteAddr)
 		if err != nil {
 			return value.Null, errors.WithStack(fmt.Errorf(
 				"could not parse remote address",
